@@ -1,5 +1,5 @@
 CONSTANTS Mags = {1} Pages <- PagesOne1 Rows = {1} Cids = {1} Nats = {0} Flofs = {} Progs <- ProgsAll
-          HdrFaults = {} RowFaults = {} PktFaults = {} TripFaults = {} MaxFaults = 0 MaxPk = 1
+          HdrFaults = {} RowFaults = {} PktFaults = {} TripFaults = {} FlofFaults <- NoFlofFaults MaxFaults = 0 MaxPk = 1
 SPECIFICATION Spec
 CONSTRAINT Bounded
 INVARIANTS RuleTriplet
